@@ -218,8 +218,10 @@ func c20Encode(c *engine.Ctx, cs c20Case) {
 				return
 			}
 			if !intact() {
-				c.Violate("encode-writes-into-spare-capacity", fmt.Sprintf("%s: Encode wrote into the spare capacity behind one of the caller's slices", cs.Name), cs)
-				return
+				// only the spare capacity behind the caller's slices was written: no payload changed and the
+				// encoding is right, so this is recorded, not reported (an append into a caller's slice becomes
+				// a violation as soon as a sibling slice lives there: layout mode 1 provides that)
+				c.Note("encode writes into spare capacity behind a caller slice (no payload changed)")
 			}
 			if pb, perr := lm.Encode(); perr == nil && !bytes.Equal(pb, rb) {
 				c.Violate("encoding-depends-on-memory-layout", fmt.Sprintf("%s: the same message encodes differently when its slices share a backing array", cs.Name), cs)
